@@ -6,6 +6,9 @@ import Bourse.Model.Ops
 import Bourse.Spec.Views
 import Bourse.Spec.Ref
 import Bourse.Lemmas.Reach
+import Bourse.Lemmas.ViewsCorrect
+import Bourse.Lemmas.Grid
+import Bourse.Spec.Audit
 
 namespace Bourse.Props.C02
 open Bourse
@@ -89,6 +92,53 @@ theorem queue_empty_iff (b : Book) (h : Inv b) (sd : Side) :
     | cons hd tl =>
       obtain ⟨e, he, ha, hs, _⟩ := (h.side sd).ent hd.1 hd.2 (by rw [hq]; exact List.mem_cons_self)
       exact absurd hs (hall _ e he ha)
+
+/-- **Published market data always equals the resting orders.** In every state reachable from a
+new book by valid fault-free operations (placements, cancels, modifications, trading toggles,
+clock changes, snapshot reloads — any interleaving, any length), for every number `n` of published
+levels whose probe prices stay below 2^32·… (`i·tick < 2^32` for `i < n`; true for tick ≤ 10 and
+n ≤ 24 with a margin of 10^7): the touch prices (with the sentinels 0 and maximum price), both total
+volumes, touch volume and order count of both sides, all per-level (volume, count) pairs, the level-1
+and level-2 records and the mid-price are exactly the values recomputed from the list of orders
+alone, and hence agree with one another. -/
+theorem published_data_equals_resting_orders (t0 tick : Nat) (trading : Bool) (ht : 0 < tick) (ops : List Op)
+    (hv : ∀ op ∈ ops, ValidOp op) (hnf : NoFault (Book.new t0 tick trading) ops) (n : Nat)
+    (hn : ∀ i, i < n → i * tick < P32) :
+    let b := (Book.new t0 tick trading).run ops
+    let os := b.orders.map (·.order)
+    b.bidAsk = (Views.bestBid os, Views.bestAsk os) ∧
+    b.bidVol = Views.sideVol os .bid ∧ b.askVol = Views.sideVol os .ask ∧
+    b.bidBestVolAndOrders = Views.touch os .bid ∧ b.askBestVolAndOrders = Views.touch os .ask ∧
+    b.bidLevels n = Views.levels os tick .bid n ∧ b.askLevels n = Views.levels os tick .ask n ∧
+    b.level1 = Views.level1 os ∧ b.level2 n = Views.level2 os tick n ∧ b.mid2 = Views.mid2 os := by
+  intro b os
+  have h := inv_reachable t0 tick trading ht ops hv hnf
+  have htick : b.tick = tick := run_tick _ ops
+  have := views_correct h n (by rw [htick]; exact hn)
+  rw [htick] at this
+  exact this
+
+/-- The same fact in the form the per-run audit uses: the decidable predicate `Audit.c02Views`, which
+the driver evaluates on the REAL implementation's observations after every operation, reports no
+failed clause on the model's observation of any reachable state. -/
+theorem audit_c02_passes (t0 tick : Nat) (trading : Bool) (ht : 0 < tick) (ops : List Op)
+    (hv : ∀ op ∈ ops, ValidOp op) (hnf : NoFault (Book.new t0 tick trading) ops) (n : Nat)
+    (hn : ∀ i, i < n → i * tick < P32) :
+    Audit.c02Views tick n (((Book.new t0 tick trading).run ops).observe n) = [] := by
+  have h := published_data_equals_resting_orders t0 tick trading ht ops hv hnf n hn
+  simp only at h
+  obtain ⟨h1, h2, h3, h4, h5, h6, h7, h8, h9, h10⟩ := h
+  simp only [Audit.c02Views, Book.observe, Audit.chk]
+  simp [h1, h2, h3, h4, h5, h6, h7, h8, h9, h10, Book.bidBestVol, Book.askBestVol, SideS.bestVol,
+    Book.bidBestVolAndOrders, Book.askBestVolAndOrders] at *
+  simp [← h4, ← h5]
+
+/-- For the quantifier of the property (tick sizes 1..10, level counts 1..24) the probe-price
+hypothesis always holds. -/
+theorem probe_range_ok (tick n : Nat) (ht : tick ≤ 10) (hn : n ≤ 24) : ∀ i, i < n → i * tick < P32 := by
+  intro i hi
+  have : i * tick ≤ 24 * 10 := Nat.mul_le_mul (by omega) ht
+  simp only [P32]; omega
 
 /-- Non-vacuity / concrete reading: a two-level book with a partially filled head order, after
 a cancel and a re-price, publishes exactly the recomputation from its order list. -/
